@@ -1,7 +1,7 @@
 (* C01 -- composition over plugin graphs: the stream at every node is a tight well-formed contiguous chunking of
    that node's whole-run rows, whatever chunkings the sources and the loaders of stored data types use. *)
 From SV Require Import Model.Rows Model.SplitArray Model.Chunk Model.Rechunker Model.Network
-     Proof.RowsFacts Proof.SplitArrayProof Proof.ChunkProof Proof.ConcatProof Proof.RechunkerProof Proof.NetworkProof.
+     Proof.RowsFacts Proof.SplitArrayProof Proof.ChunkProof Proof.ConcatProof Proof.RechunkerProof Proof.NetworkProof Proof.NetworkDownProof.
 
 Lemma lookup_cons {A} d k (v : A) env : lookup d ((k, v) :: env) = if k =? d then Some v else lookup d env.
 Proof. reflexivity. Qed.
@@ -25,7 +25,7 @@ Section Graph.
     | CSrc => True
     | CLocal h => local_comp h
     | CExhaust f => whole_comp f
-    | CDown _ _ => False          (* down-chunking: correspondence only (see Props/C01.v) *)
+    | CDown h cut => local_comp h /\ cut_ok cut
     | CPair true h _ => pair_comp equal_len h
     | CPair false h _ => pair_comp (fun _ => True) h
     end.
@@ -69,13 +69,17 @@ Section Graph.
                 chunking_of (o_dtype (n_meta n)) (o_run (n_meta n)) (whole_node src whole n) 0 T out.
   Proof.
     intros HE HC HA HD HL HS. unfold run_node, whole_node, data_ok, arity_ok in *.
-    destruct (n_comp n) as [|h|f|h cut|sk h bs] eqn:EC; [first [elim HS; reflexivity | elim HS; exact EC]| | |destruct HC|].
+    destruct (n_comp n) as [|h|f|h cut|sk h bs] eqn:EC; [first [elim HS; reflexivity | elim HS; exact EC]| | | |].
     - destruct HA as (d & HA). rewrite HA in *. inversion HL as [|? ? Hd _]; subst.
       specialize (HE d). destruct (lookup d env) as [cs|]; [|congruence].
       destruct HE as (dt & run & R & -> & Hc). apply (run_local_correct _ h dt run R 0 T cs HC Hc).
     - destruct HA as (d & HA). rewrite HA in *. inversion HL as [|? ? Hd _]; subst.
       specialize (HE d). destruct (lookup d env) as [cs|]; [|congruence].
       destruct HE as (dt & run & R & -> & Hc). apply (run_exhaust_correct _ f dt run R 0 T cs HC Hc).
+    - destruct HA as (d & HA). rewrite HA in *. inversion HL as [|? ? Hd _]; subst.
+      specialize (HE d). destruct (lookup d env) as [cs|]; [|congruence].
+      destruct HE as (dt & run & R & -> & Hc). destruct HC as [HC1 HC2].
+      apply (run_down_correct _ h cut dt run R 0 T cs HC1 HC2 Hc).
     - destruct HA as (d1 & d2 & HA). rewrite HA in *. inversion HL as [|? ? Hd1 HL2]; subst. inversion HL2 as [|? ? Hd2 _]; subst.
       pose proof (HE d1) as H1. pose proof (HE d2) as H2.
       destruct (lookup d1 env) as [s1|]; [|congruence]. destruct (lookup d2 env) as [s2|]; [|congruence].
